@@ -4,26 +4,29 @@
 (* is read from there, otherwise it is transferred and unpacked first.  A      *)
 (* transfer may break off (FailingRequest): the caller gets the error, the     *)
 (* tile is NOT in the cache afterwards (whatever partial file the transfer     *)
-(* left behind), and a later request transfers it again.                       *)
+(* left behind), and a later request transfers it again.  The same holds when *)
+(* the transfer completes but what arrived is not an archive ("garbage": a     *)
+(* truncated body, a proxy's error page).                                      *)
 EXTENDS Integers, Sequences, FiniteSets, TLC, Json
 CONSTANTS Tiles, MaxLen
 VARIABLES cache, hist, downloads
 Init == cache \in SUBSET Tiles /\ hist = <<>> /\ downloads = <<>>       \* warm or cold start
-\* hist entries: <<tile, "ok" | "fail">>;  downloads: every transfer that was STARTED, in order
+\* hist entries: <<tile, "ok" | "fail" | "garbage">>;  downloads: every transfer that was STARTED, in order
 Request(t) == /\ Len(hist) < MaxLen
               /\ hist' = Append(hist, <<t, "ok">>)
               /\ downloads' = IF t \in cache THEN downloads ELSE Append(downloads, t)
               /\ cache' = cache \cup {t}
-FailingRequest(t) == /\ Len(hist) < MaxLen /\ t \notin cache
-                     /\ hist' = Append(hist, <<t, "fail">>)
+FailingRequest(t, how) ==
+                     /\ Len(hist) < MaxLen /\ t \notin cache
+                     /\ hist' = Append(hist, <<t, how>>)
                      /\ downloads' = Append(downloads, t)
                      /\ cache' = cache
-Next == \E t \in Tiles : Request(t) \/ FailingRequest(t)
+Next == \E t \in Tiles : Request(t) \/ \E how \in {"fail", "garbage"} : FailingRequest(t, how)
 Spec == Init /\ [][Next]_<<cache, hist, downloads>>
 \* a transfer is started only for a tile that is not in the cache:
 \* number of transfers of t = number of failing requests for t + (1 if a successful request found it missing)
 Transfers(t) == Cardinality({i \in 1..Len(downloads) : downloads[i] = t})
-Fails(t) == Cardinality({i \in 1..Len(hist) : hist[i] = <<t, "fail">>})
+Fails(t) == Cardinality({i \in 1..Len(hist) : hist[i][1] = t /\ hist[i][2] # "ok"})
 AtMostOnce == \A t \in Tiles : Transfers(t) <= Fails(t) + 1
 Emit == Len(hist) < MaxLen \/ PrintT(<<"CASE", ToJson([hist |-> hist, downloads |-> downloads, final |-> cache])>>)
 =============================================================================
